@@ -108,6 +108,11 @@ class Run(object):
                     line = "650 HS_DESC UPLOAD %s UNKNOWN %s desc%s\r\n" % (sid, d, e["d"])
                 elif a == "FetchFailed":
                     line = "650 HS_DESC FAILED %s NO_AUTH %s REASON=NOT_FOUND\r\n" % (sid, d)
+                elif a == "Notice":
+                    if e["k"] == "CREATED":
+                        line = "650 HS_DESC CREATED %s UNKNOWN UNKNOWN desc%s REPLICA=0\r\n" % (sid, e["d"])
+                    else:
+                        line = "650 HS_DESC %s %s NO_AUTH %s desc%s\r\n" % (e["k"], sid, d, e["d"])
                 elif a == "Uploaded":
                     line = "650 HS_DESC UPLOADED %s UNKNOWN %s\r\n" % (sid, d)
                 else:
